@@ -1,6 +1,7 @@
 import TR.Lemmas.Coalesce
 import TR.Lemmas.CoalesceHandle
 import TR.Lemmas.CoalesceHerd
+import TR.Lemmas.CoalesceCaller
 /-!
 # C11 — coalesce runs one inner call per key and shares its result with all waiters
 
@@ -423,6 +424,44 @@ theorem simultaneous_arrivals_one_leader (ops : List Op) (key c : Nat) (sc : Ste
 
 /-! ## non-vacuity: concrete histories that meet the hypotheses -/
 
+/-! ## no cancellation without a cancelled leader; the caller's handle does not matter -/
+
+/-- **`leader_cancelled` has a cause.** A request that was coalesced onto the call of leader `l` and received
+`err:leader_cancelled`: then `l`'s future was dropped unfinished (`inner_drop`) or its inner call panicked
+(`inner_done … panic`) — and that is in the log. -/
+theorem no_cancellation_without_cause (ops : List Op) (c key l : Nat)
+    (hw : lookup (run ops).role c = some (.waiter key l))
+    (hres : CEv.result c .cancelled ∈ (run ops).log) :
+    ∃ k, lookup (run ops).role l = some (.leader key k) ∧ Cancelled (run ops).log l key k := by
+  obtain ⟨k, hk, hf⟩ := waiter_gets_leader_result ops c key l .cancelled hw hres
+  refine ⟨k, hk, ?_⟩
+  rcases hf with hd | ⟨_, hc⟩
+  · rcases hd with ⟨h, _⟩ | ⟨kd, h, _⟩ <;> cases h
+  · exact hc
+
+/-- … so in a history in which no leader was dropped and no inner call panicked (whatever else happened: any
+arrival, completion and poll order — the situation of `manual finish`) a request that arrives while a call for its
+key is in flight is never failed with `leader_cancelled`: whatever it receives is that call's own value. -/
+theorem arrival_during_completion_shares_or_leads (ops : List Op) (c key l : Nat) (r : Res)
+    (hquiet : ∀ l key k, ¬ Cancelled (run ops).log l key k)
+    (hw : lookup (run ops).role c = some (.waiter key l))
+    (hres : CEv.result c r ∈ (run ops).log) :
+    ∃ k, lookup (run ops).role l = some (.leader key k) ∧ Delivered (run ops).log l key k r := by
+  obtain ⟨k, hk, hf⟩ := waiter_gets_leader_result ops c key l r hw hres
+  refine ⟨k, hk, ?_⟩
+  rcases hf with hd | ⟨_, hc⟩
+  · exact hd
+  · exact absurd hc (hquiet l key k)
+
+/-- **The caller's handle does not matter.** The request an `arrive` line stands for is the same with and without
+a `via=…` word (wherever it stands and whatever its value): the model — and hence every theorem of this file —
+is indifferent to whether the request comes through a clone made for it, through the ONE handle that was never
+cloned (so that the handle is the only owner of the in-flight table apart from the call futures), through the
+`mem::replace` idiom or through a clone of a readied handle. The harness makes the real code go through all four. -/
+theorem caller_mode_irrelevant (c : Nat) (pre post : Kv) (v : String) :
+    arriveOp c (pre ++ ("via", v) :: post) = arriveOp c (pre ++ post) :=
+  arriveOp_skip c pre post "via" v (by decide) (by decide) (by decide)
+
 /-- two requests for key 7 coalesce (one inner call, serial 0, both get `ok:0`), key 8 runs
 its own call concurrently and fails: its waiter gets the same error with the same serial 1 -/
 example :
@@ -498,5 +537,15 @@ example :
     (run (arrivals 7 [(3, ⟨0, .ok⟩), (1, ⟨0, .ok⟩), (2, ⟨0, .ok⟩)] ++ [.poll 1, .poll 3, .poll 1, .poll 2])).log
       = [.innerCall 3 7 0, .innerDone 3 7 0 .ok, .result 3 (.ok 0), .result 1 (.ok 0), .result 2 (.ok 0)] ∧
     herdTotals 5 2 10 5 = (20, 50) := by decide
+
+/-- a completion with a request on either side of it and no drop, no panic: 2 joins call 0 and shares `ok:0`; 3
+arrives after the completion and leads call 1; nobody is cancelled; and the `manual finish` line -/
+example :
+    (run [.arrive 1 7 ⟨0, .ok⟩ false, .arrive 2 7 ⟨0, .ok⟩ false, .poll 1, .arrive 3 7 ⟨0, .err 2⟩ false,
+          .poll 2, .poll 3]).log
+      = [.innerCall 1 7 0, .innerDone 1 7 0 .ok, .result 1 (.ok 0), .innerCall 3 7 1, .result 2 (.ok 0),
+         .innerDone 3 7 1 (.err 2), .result 3 (.inner 2 1)] ∧
+    arriveOp 4 [("key", "7"), ("via", "template"), ("inner", "5:ok")] = arriveOp 4 [("key", "7"), ("inner", "5:ok")] := by
+  exact ⟨by decide, caller_mode_irrelevant 4 [("key", "7")] [("inner", "5:ok")] "template"⟩
 
 end TR.Props.C11
